@@ -19,6 +19,7 @@ import Cog.Drv.DefaultsDrv
 import Cog.Drv.PyDrv
 import Cog.Drv.BuilderSemDrv
 import Cog.Drv.TotalDrv
+import Cog.Drv.SrcDenDrv
 open Cog.Drv
 
 def handle (line : String) : String :=
@@ -68,6 +69,7 @@ def handleIO (line : String) : IO String := do
   | "jshyp" :: rest => jshypLine (" ".intercalate rest)
   | "jswf" :: rest => jswfLine (" ".intercalate rest)
   | "jsself" :: rest => jsselfLine (" ".intercalate rest)
+  | "srcden" :: rest => srcdenLine (" ".intercalate rest)
   | "godefaults" :: rest => godefaultsLine (" ".intercalate rest)
   | "pydefaults" :: rest => pydefaultsLine (" ".intercalate rest)
   | "pyroundtrip" :: rest => pyroundtripLine (" ".intercalate rest)
